@@ -240,6 +240,15 @@ func (w *World) Named(short, name string) *types.Named {
 }
 
 func (w *World) Field(short, typ, field string) *types.Var {
+	if f := w.FieldMaybe(short, typ, field); f != nil {
+		return f
+	}
+	fatalf("anchor: field %s.%s.%s not found", short, typ, field)
+	return nil
+}
+
+// FieldMaybe: Field without the anchor failure (the caller identifies the field by its role instead).
+func (w *World) FieldMaybe(short, typ, field string) *types.Var {
 	n := w.Named(short, typ)
 	st, ok := n.Underlying().(*types.Struct)
 	if !ok {
@@ -290,7 +299,6 @@ func (w *World) Field(short, typ, field string) *types.Var {
 	if len(found) == 1 {
 		return found[0]
 	}
-	fatalf("anchor: field %s.%s.%s not found", short, typ, field)
 	return nil
 }
 
